@@ -260,7 +260,8 @@ AROMATIC_SEEDS = [
     "c1ccccc1C", "Oc1ccccc1", "c1ccc2occc2c1", "O=c1cnc[nH]c1", "C1=CC=CC=C1", "c1ccccc1.c1ccncc1",
     "c1ccc2ncccc2c1", "c1c2ccccc2cc2ccccc12", "[cH]1[cH][cH][cH][cH][cH]1", "c1ccc2c(c1)ccc1ccccc12",
     "n1ccccc1", "c1ccc[n+]([O-])c1", "c1ccc(cc1)[N+](=O)[O-]", "[O-]c1ccccc1", "Cc1ccccc1", "c1ccbcc1",
-    "c1cc[siH]cc1", "c1ccc2c(c1)[nH]c1ccccc12", "c1cc2ccc3ccc4ccc5ccc6ccc1c1c2c3c4c5c61",
+    "c1cc[siH]cc1", "c1ccc2c(c1)[nH]c1ccccc12", "c1ccc2c(c1)c1nc3nc(nc4[nH]c(nc5nc(nc2[nH]1)c1ccccc51)c1ccccc41)c1ccccc31",
+    "CC(C)(c1ccccc1)c1ccc(Oc2ccc3c4nc5nc(nc6nc(nc7nc(nc(n4)c3c2)c2ccc(Oc3ccc(C(C)(C)c4ccccc4)cc3)cc72)c2ccc(Oc3ccc(C(C)(C)c4ccccc4)cc3)cc62)c2cc(Oc3ccc(C(C)(C)c4ccccc4)cc3)ccc52)cc1", "c1cc2ccc3ccc4ccc5ccc6ccc1c1c2c3c4c5c61",
     "c12c3c4c5c1c1c6c7c2c2c8c3c3c9c4c4c%10c5c5c1c1c6c6c%11c7c2c2c7c8c3c3c8c9c4c4c9c%10c5c5c1c1c6c6c%11c2c2c7c3c3c8c4c4c9c5c1c1c6c2c3c41",
 ]
 NONKEKULE = ["c1cccc1", "c1cccc1C", "c1cc1", "c1cccccc1", "[cH]1[cH][cH][cH][cH]1", "c1ccccc1c", "n1cccc1",
